@@ -28,6 +28,13 @@ pub fn programs(ctx: &Ctx, salt: u64) -> Vec<Program> {
             // a file spanning 2+ blocks, both entropies
             v.push(single_file(layers, 5, Sz::new(2, 1, 9), DataKind::Random, ctx.seed ^ 1));
             v.push(single_file(layers, 1, Sz::new(2, 0, -30), DataKind::Text, ctx.seed ^ 2));
+            // content blocks that each fill exactly one chunk / whose data starts on a chunk edge and parses as blocks
+            if let Some(p) = crate::c04::aligned_program(&k, layers, 4, Sz::new(0, 1, -17), ctx.seed ^ 0xA1) {
+                v.push(p);
+            }
+            if let Some(p) = crate::c04::adversarial_program(&k, layers, 3, ctx.seed ^ 0xA2) {
+                v.push(p);
+            }
             // interleaved programs
             let mut sizes = gen::small_sizes();
             sizes.extend([Sz::new(0, 1, -17), Sz::new(0, 1, 0), Sz::new(0, 1, 1), Sz::new(0, 2, -18), Sz::new(0, 3, 5), Sz::new(1, 0, -20)]);
@@ -52,6 +59,12 @@ pub fn programs(ctx: &Ctx, salt: u64) -> Vec<Program> {
             }
             // compressible text over several chunks of output
             v.push(single_file(layers, 5, Sz::new(0, 5, 77), DataKind::Text, ctx.seed ^ 3));
+            if let Some(p) = crate::c04::aligned_program(&k, layers, 3, Sz::new(0, 1, -17), ctx.seed ^ 0xA1) {
+                v.push(p);
+            }
+            if let Some(p) = crate::c04::adversarial_program(&k, layers, 3, ctx.seed ^ 0xA2) {
+                v.push(p);
+            }
             let sizes = gen::chunk_sizes();
             for i in 0..nrand {
                 let nfiles = 2 + rng.usize_below(3);
